@@ -48,6 +48,35 @@ def r02_2(run):
     run.floor('R02.2', 'calls of self.command[2](...)', sites, 4)
 
 
+def r02_7(run):
+    c01.r01_11(run, rid='R02.7')
+
+
+def r02_8(run):
+    """Removing a listener is by equality: two accesses of the same bound method are equal but not
+    identical, so an identity test (`is` / `is not`) never removes a method listener."""
+    ev = _event_cls(run)
+    ci = proto(run)
+    k = 0
+    for u in [run.idx.find_method(ev, 'unlisten'), run.idx.find_method(ci, 'remove_event_listener')]:
+        if u is None:
+            raise AnchorVanished('listener removal function')
+        params = set(u.params[1:])
+        removes = [c for c in calls_in(u) if callee_attr(c) in ('remove', 'discard', 'unlisten') and c.args and dotted(c.args[0]) in params]
+        cmps = [n for n in walk_unit(u) if isinstance(n, ast.Compare) and
+                any(dotted(x) in params for x in [n.left] + list(n.comparators))]
+        for n in cmps:
+            k += 1
+            ident = any(isinstance(op, (ast.Is, ast.IsNot)) for op in n.ops) and not any(is_none(x) for x in [n.left] + list(n.comparators))
+            run.ob('R02.8', u, n, 'listeners are compared by equality', not ident, slot='identity-compare@%s' % u.short,
+                   message='%s compares the callback with `%s`: a bound-method listener is a fresh object on every access, '
+                           'so it is never removed and keeps receiving events' % (u.short, src(n)))
+        k += len(removes)
+        run.ob('R02.8', u, u.node, 'the removal function removes the given callback', bool(removes) or bool(cmps), slot='removes@%s' % u.short,
+               message='%s neither calls remove(<callback>) nor filters by comparison with it' % u.short)
+    run.floor('R02.8', 'removal sites', k, 2)
+
+
 def _event_cls(run):
     return run.idx.cls('Event', MOD)
 
@@ -272,6 +301,8 @@ RULES = [
     ('R02.3', 'fan-out iterates a snapshot (or listen/unlisten are copy-on-write)', r02_3),
     ('R02.4', 'listener call isolated by try/except Exception that stays in the loop', r02_4),
     ('R02.5', 'SETEVENTS argument = names in self.events; table stored/deleted only under the first/last-listener guards and followed by SETEVENTS', r02_5),
+    ('R02.7', 'who-may-write: the event/reply line accumulator is written only by the line machine (issuing a command cannot wipe a half-received event)', r02_7),
+    ('R02.8', 'listener removal removes the given callback by equality (no identity test on callbacks)', r02_8),
     ('R02.6', 'events dispatched only via self.events[name] under membership guard, only from _handle_notify', r02_6),
 ]
 
@@ -283,6 +314,8 @@ MUTANTS = [
     M('event-code-not-reset', F, "            self._handle_notify(self.code, resp)\n            self.code = None\n", "            self._handle_notify(self.code, resp)\n", ['R02.1']),
     M('linecb-unguarded', F, "        return self.code >= 200 and self.code < 300 and \\\n            self.command and self.command[2] is not None", "        return self.command and self.command[2] is not None", ['R02.2']),
     M('linecb-guard-700', F, "        return self.code >= 200 and self.code < 300 and \\\n            self.command", "        return self.code >= 200 and self.code < 700 and \\\n            self.command", ['R02.2']),
+    M('issue-wipes-accumulator', F, "            self.defer = d\n", "            self.defer = d\n            self.response = ''\n", ['R02.7']),
+    M('unlisten-by-identity', F, "        self.callbacks.remove(cb)", "        self.callbacks = [c for c in self.callbacks if c is not cb]", ['R02.8']),
     M('live-list', F, "for cb in list(self.callbacks):", "for cb in self.callbacks:", ['R02.3']),
     M('handler-reraises', F, "                log.err(Failure())\n", "                log.err(Failure())\n                raise\n", ['R02.4']),
     M('narrow-except', F, "            except Exception as e:\n                log.err(Failure())", "            except ValueError as e:\n                log.err(Failure())", ['R02.4']),
@@ -293,6 +326,8 @@ MUTANTS = [
     M('dispatch-unguarded', F, "        if name in self.events:\n            self.events[name].got_update", "        if name in self.valid_events:\n            self.valid_events[name].got_update", ['R02.6']),
 ]
 TWINS = [
+    M('unlisten-by-equality-filter', F, "        self.callbacks.remove(cb)", "        self.callbacks = [c for c in self.callbacks if c != cb]"),
+    M('lost-resets-accumulator', F, "        self.command = None\n        self.defer = None\n        self.commands = []\n", "        self.command = None\n        self.defer = None\n        self.response = ''\n        self.commands = []\n"),
     M('tuple-snapshot', F, "for cb in list(self.callbacks):", "for cb in tuple(self.callbacks):"),
     M('slice-snapshot', F, "for cb in list(self.callbacks):", "for cb in self.callbacks[:]:"),
     M('join-list', F, "            return self.queue_command('SETEVENTS %s' % ' '.join(self.events.keys()))", "            return self.queue_command('SETEVENTS %s' % ' '.join(list(self.events)))"),
